@@ -90,8 +90,10 @@ PROBES = {
     ("JLS_ERROR_FULL", "JLS_ERROR_FULL"), ("JLS_ERROR_EMPTY", "JLS_ERROR_EMPTY"), ("JLS_ERROR_TOO_SMALL", "JLS_ERROR_TOO_SMALL"),
     ("JLS_ERROR_TOO_BIG", "JLS_ERROR_TOO_BIG"), ("JLS_ERROR_NOT_FOUND", "JLS_ERROR_NOT_FOUND"),
     ("JLS_ERROR_ALREADY_EXISTS", "JLS_ERROR_ALREADY_EXISTS"), ("JLS_ERROR_BUSY", "JLS_ERROR_BUSY"),
-    ("JLS_ERROR_UNSUPPORTED_FILE", "JLS_ERROR_UNSUPPORTED_FILE"), ("JLS_ERROR_TRUNCATED", "JLS_ERROR_TRUNCATED"),
+    ("JLS_ERROR_UNSUPPORTED_FILE", "JLS_ERROR_UNSUPPORTED_FILE"), ("JLS_ERROR_UNAVAILABLE", "JLS_ERROR_UNAVAILABLE"),
+    ("JLS_ERROR_INVALID_RETURN_CONDITION", "JLS_ERROR_INVALID_RETURN_CONDITION"), ("JLS_ERROR_TRUNCATED", "JLS_ERROR_TRUNCATED"),
     ("JLS_ERROR_CODE_COUNT", "JLS_ERROR_CODE_COUNT"),
+    ("JLS_TIME_Q", "JLS_TIME_Q"), ("JLS_TIME_SECOND", "JLS_TIME_SECOND"),
  ]),
  "core": ([], "core.c", [
     ("SAMPLE_SIZE_BYTES_MAX", "SAMPLE_SIZE_BYTES_MAX"),
@@ -121,7 +123,7 @@ def run_probe(name, cflags, inc, items, tmp, tables=False):
     exe = os.path.join(tmp, "probe_%s" % name)
     with open(src, "w") as f:
         f.write("#include <stdio.h>\n#include <stddef.h>\n#include <stdint.h>\n")
-        f.write('#include "jls/format.h"\n#include "jls/backend.h"\n#include "jls/buffer.h"\n#include "jls/ec.h"\n')
+        f.write('#include "jls/format.h"\n#include "jls/backend.h"\n#include "jls/buffer.h"\n#include "jls/ec.h"\n#include "jls/time.h"\n')
         if inc:
             f.write('#include "%s"\n' % inc)
         f.write("int main(void) {\n")
@@ -158,7 +160,7 @@ def main():
             vals.update(run_probe(name, cf, inc, items, tmp))
         vals.update(run_probe("crc", ["-DJLS_OPTIMIZE_CRC_DISABLE=1"], "crc32c_sw.c", [], tmp, tables=True))
     lines = []
-    lines.append("(* GENERATED by tools/gen_constants.py from %s -- do not edit. *)" % REPO)
+    lines.append("(* GENERATED by tools/gen_constants.py from the repository sources -- do not edit. *)")
     lines.append("From Coq Require Import NArith List.")
     lines.append("Import ListNotations.")
     lines.append("Local Open Scope N_scope.")
